@@ -6,6 +6,7 @@ package main
 import (
 	"fmt"
 	"go/constant"
+	"go/token"
 	"go/types"
 	"strings"
 
@@ -701,4 +702,61 @@ func ruleC15Dir(p *Prog, r *Result) {
 		return res.Op == "append" && len(res.Args) == 2 && res.Args[0].Op == "lit" && len(res.Args[0].Args) == 1 && res.Args[0].Args[0].Op == "fresh" &&
 			hasEffect(pa, "mapset", mIs(res.Args[0].Args[0]), mStr("$match"), mOp("fresh"))
 	})
+}
+
+// ruleC17Main (C17.main): bklr feeds the skeleton function the whole merged document — docs[0].Data of the
+// parser that merged the input's layers — whatever its root kind, and prints exactly what it returns.
+func ruleC17Main(p *Prog, r *Result) {
+	fn := p.Func("cmd/bklr.main")
+	var calls []*ssa.Call
+	for _, cs := range allCalls([]*ssa.Function{fn}) {
+		if cs.Callee != nil && p.FuncName(cs.Callee) == "cmd/bklr.required" {
+			if c, ok := cs.Instr.(*ssa.Call); ok {
+				calls = append(calls, c)
+			}
+		}
+	}
+	pos := p.Pos(fn.Pos())
+	if len(calls) != 1 {
+		r.Fail("C17.main", "cmd/bklr.main / one skeleton computation", pos, fmt.Sprintf("expected exactly one call of required in main, found %d", len(calls)))
+		return
+	}
+	c := calls[0]
+	ok, why := false, "the argument is not docs[0].Data"
+	if ld, isLd := c.Call.Args[0].(*ssa.UnOp); isLd && ld.Op == token.MUL {
+		if fa, isFA := ld.X.(*ssa.FieldAddr); isFA && strings.HasSuffix(fieldName(fa), "Document.Data") {
+			if el, isEl := fa.X.(*ssa.UnOp); isEl {
+				if ia, isIA := el.X.(*ssa.IndexAddr); isIA {
+					if k, isK := constInt(ia.Index); isK && k == 0 {
+						if dc, isCall := ia.X.(*ssa.Call); isCall {
+							if sc := dc.Call.StaticCallee(); sc != nil && p.FuncName(sc) == "bkl.(*Parser).Documents" {
+								ok = true
+							}
+						}
+					}
+				}
+			}
+		}
+	} else {
+		why = "the argument is " + describeValue(p, c.Call.Args[0]) + ", not the document's data as it is (a converted or narrowed view drops list- and scalar-rooted documents)"
+	}
+	r.Check(ok, "C17.main", "cmd/bklr.main / required(docs[0].Data)", p.InstrPos(c), "the skeleton is computed from the merged document's data itself", why)
+	// what is printed is the skeleton
+	printed := false
+	if c.Referrers() != nil {
+		for _, ref := range *c.Referrers() {
+			if ex, isEx := ref.(*ssa.Extract); isEx && ex.Index == 0 && ex.Referrers() != nil {
+				for _, r2 := range *ex.Referrers() {
+					if st, isSt := r2.(*ssa.Store); isSt {
+						if ia, isIA := st.Addr.(*ssa.IndexAddr); isIA {
+							if _, isAl := ia.X.(*ssa.Alloc); isAl {
+								printed = true // element of the []any{out} literal handed to MarshalStream
+							}
+						}
+					}
+				}
+			}
+		}
+	}
+	r.Check(printed, "C17.main", "cmd/bklr.main / the skeleton is what is encoded", p.InstrPos(c), "[]any{out} goes to the encoder", "the result of required is not what is written")
 }
